@@ -475,4 +475,4 @@ impl Drop for ReverseDeltaBuilder {
 
 #[cfg(kani)]
 #[path = "/verif/units/kani/rollback_mod.rs"]
-mod verif_kani;
+pub(crate) mod verif_kani;
